@@ -633,7 +633,9 @@ def p_mp_createClass(p):
                 errcode = ce.status_code
 
                 if errcode == CIM_ERR_INVALID_NAMESPACE:
-                    assert not fixedNS  # Should not happen if we created it
+                    if fixedNS:
+                        # Should not happen if we created it
+                        raise
                     if p.parser.verbose:
                         p.parser.log(
                             _format("Creating namespace {0} (in MOF compiler)",
@@ -643,7 +645,9 @@ def p_mp_createClass(p):
                     continue  # Try again to create the class
 
                 if errcode == CIM_ERR_INVALID_SUPERCLASS:
-                    assert not fixedSuper  # Should not happen if we fixed it
+                    if fixedSuper or not cc.superclass:
+                        # Should not happen if we fixed it
+                        raise
                     moffile = p.parser.mofcomp.find_mof(cc.superclass)
                     if not moffile:
                         raise MOFDependencyError(
@@ -845,7 +849,7 @@ def p_mp_createInstance(p):
                 raise MOFRepositoryError(
                     msg=_format(
                         "Cannot compile instance of {0!A} because its instance "
-                        "path cannot be created from the instance: {}",
+                        "path cannot be created from the instance: {1}",
                         inst.classname, ve),
                     parser_token=p)
 
@@ -910,7 +914,7 @@ def p_mp_setQualifier(p):
                 p.parser.log(
                     _format("Qualifier {0}:{1} already exists. Deleting...",
                             ns, qualdecl.name))
-            p.parser.handle.DeleteQualifier(qualdecl.name)
+            p.parser.handle.DeleteQualifier(qualdecl.name, namespace=ns)
             if p.parser.verbose:
                 p.parser.log(
                     _format("Setting qualifier {0}:{1}", ns, qualdecl.name))
